@@ -73,6 +73,16 @@ class Sym:
             oth = next(x for x in i['ops'] if x is not cst)
             a = self.sym(oth, depth + 1)
             r = self.aff({k: v * cst['v'] for k, v in a[1]}, a[2] * cst['v'])
+        elif op == 'getelementptr' and i.get('off') is not None:
+            a = self.sym(i['ops'][0], depth + 1)
+            d = dict(a[1])
+            c = a[2] + i['off']
+            for vo, sc in i.get('var') or []:
+                b = self.sym(vo, depth + 1)
+                for k, v in b[1]:
+                    d[k] = d.get(k, 0) + v * sc
+                c += b[2] * sc
+            r = self.aff(d, c)
         elif op == 'phi':
             if nm:
                 r = self.atom(('var', nm))
